@@ -11,7 +11,6 @@ from __future__ import annotations
 import hashlib
 import html as _html
 import os
-import pathlib
 import posixpath
 import re
 import shutil
@@ -252,68 +251,42 @@ def _copy_to(t: Toks) -> str:
         return status + " " + efs_canon(sb.snapshot())
 
 
-@op("copy_plan")
+def full_tree(root: str):
+    """every directory and every file below `root` — names (as bytes), kind, and file contents; nothing is digested and
+    empty directories count: this is what "untouched" means for the atomicity clause"""
+    out = {}
+    for r, dirs, files in os.walk(root):
+        for dn in dirs:
+            p = os.path.join(r, dn)
+            out[os.fsencode(p)] = ("link", os.readlink(p)) if os.path.islink(p) else ("dir",)
+        for fn in files:
+            p = os.path.join(r, fn)
+            if os.path.islink(p):
+                out[os.fsencode(p)] = ("link", os.readlink(p))
+            else:
+                with open(p, "rb") as f:
+                    out[os.fsencode(p)] = ("file", f.read())
+    return out
+
+
+@op("copy_atomic")
 @guarded
-def _copy_plan(t: Toks) -> str:
-    """record the calls copy_to makes to shutil / Path.mkdir (and let them through)"""
+def _copy_atomic(t: Toks) -> str:
+    """`copy_to` judged on the real directory tree only: `ok`, or `err <kind> same|changed` where same/changed compares
+    a complete snapshot (directories, names, contents — stale files included) taken before and after the call.
+    Which library functions `copy_to` uses to get there is not observed."""
     info, path, iv, cwd, fs = _copy_args(t)
     with Sandbox() as sb:
         sb.materialise(fs)
         sb.chdir(cwd)
         dep = adapters.realize_dep(sb.map_dep(info), False, [])
-        if dep.source_path_map(lib_prefix=None, include_version=iv)["source"] == "":
-            dep.copy_to(sb.real(path), include_version=iv)
-            return "none"
-        log = []
-        real = dict(rmtree=shutil.rmtree, copy2=shutil.copy2, copytree=shutil.copytree, mkdir=pathlib.Path.mkdir)
-
-        def rmtree(p, *a, **k):
-            if str(p).startswith(sb.tmp + "/"):     # package_dir() cleans up a TemporaryDirectory of its own through rmtree
-                log.append(("rm", str(p)))
-            return real["rmtree"](p, *a, **k)
-
-        def copy2(s, d, *a, **k):
-            log.append(("f", str(s), str(d)))
-            return real["copy2"](s, d, *a, **k)
-
-        def copytree(s, d, *a, **k):
-            log.append(("d", str(s), str(d)))
-            # copytree's own per-file copies and recursive calls are not calls of copy_to
-            shutil.copy2, shutil.copytree = real["copy2"], real["copytree"]
-            try:
-                return real["copytree"](s, d, *a, **k)
-            finally:
-                shutil.copy2, shutil.copytree = copy2, copytree
-
-        def mkdir(self, *a, **k):
-            if not any(x[0] == "mk" for x in log):      # parents=True recurses through Path.mkdir: the first call is copy_to's
-                log.append(("mk", str(self)))
-            return real["mkdir"](self, *a, **k)
-
-        shutil.rmtree, shutil.copy2, shutil.copytree, pathlib.Path.mkdir = rmtree, copy2, copytree, mkdir
+        before = full_tree(sb.tmp)
         try:
             dep.copy_to(sb.real(path), include_version=iv)
+            return "ok"
         except Exception as e:
-            if not log:
-                return err_of(e)
-            return err_of(e) + " after " + " ".join(x[0] for x in log)
-        finally:
-            shutil.rmtree, shutil.copy2, shutil.copytree = real["rmtree"], real["copy2"], real["copytree"]
-            pathlib.Path.mkdir = real["mkdir"]
-        # order: [rm T]? mk T (copy)*
-        existed = bool(log) and log[0][0] == "rm"
-        rest = log[1:] if existed else log
-        if not rest or rest[0][0] != "mk" or (existed and log[0][1] != rest[0][1]):
-            return "unexpected-call-order " + " ".join(x[0] for x in log)
-        target = rest[0][1]
-        rows = []
-        for x in rest[1:]:
-            if x[0] not in ("f", "d"):      # a second rmtree / mkdir after the copies started
-                return "unexpected-call-order " + " ".join(y[0] for y in log)
-            rows.append(x[0] + " " + es(canon_path(sb.virt(x[1]))) + " " + es(canon_path(sb.virt(x[2]))))
-        if info["all_files"]:
-            rows.sort()
-        return "plan " + ("T" if existed else "F") + " " + es(canon_path(sb.virt(target))) + " " + elist(rows)
+            after = full_tree(sb.tmp)
+            return err_of(e) + " " + ("same" if after == before else "changed")
 
 
 URL_ATTR = re.compile(r'\s(?:src|href)="([^"]*)"')
